@@ -76,7 +76,7 @@ def _sanitise(node, top=False):
         for it in node['items']:
             _sanitise(it[1] if k == 'map' else it)
     elif k == 's':
-        if node.get('tag') in ('!del', '!merge'):
+        if node.get('tag') == '!del':
             node['tag'] = None
     return node
 
